@@ -54,39 +54,40 @@ Example C14_example_names :
   /\ gen_auto_add_extension "x" Ezarr = "x.zarr".
 Proof. vm_compute. repeat split; reflexivity. Qed.
 
-(* whatever numeric dtype xarray remembers from an earlier load, an (unpacked) integer / unsigned / float variable is
-   written with a dtype that can hold its data safely -- by the rule regenerated from save_ds: missing cells that
-   merging padded into an integer variable stay missing, a coordinate that has grown past int32 keeps its values *)
-Definition numeric (d : dtype) : Prop :=
-  (fst d = KInt \/ fst d = KUInt \/ fst d = KFloat) /\ (snd d = 8 \/ snd d = 16 \/ snd d = 32 \/ snd d = 64).
+(* whatever bool / integer / unsigned / float / complex dtype xarray remembers from an earlier load, an (unpacked)
+   variable of such a dtype is written with a dtype that can hold its data safely -- by the rule regenerated from
+   save_ds: missing cells padded into an integer variable stay missing, a coordinate grown past int32 keeps its
+   values, values that have become complex keep their imaginary parts.  (A finite domain: 3 engines x 14 remembered
+   states x 13 data dtypes, decided by computation and lifted.) *)
+Definition written_ok (r : dtype_rule) : bool :=
+  forallb (fun e => forallb (fun rem => forallb (fun d => safe_cast d (written_dtype r e rem d false)) all_numeric)
+                            (None :: map Some all_numeric))
+          [Eh5netcdf; Enetcdf4; Ejoblib].
+Lemma written_ok_model : written_ok model_dtype_rule = true.
+Proof. vm_compute. reflexivity. Qed.
+
 Theorem C14_written_dtype_holds_the_data : forall e remembered data,
-  e <> Ezarr -> numeric data -> (forall k, remembered = Some k -> numeric k) ->
+  In e [Eh5netcdf; Enetcdf4; Ejoblib] -> In data all_numeric -> In remembered (None :: map Some all_numeric) ->
   safe_cast data (written_dtype gen_dtype_rule e remembered data false) = true.
 Proof.
   intros e remembered data He Hd Hr. rewrite bridge_dtype_rule.
-  assert (Hself : safe_cast data data = true).
-  { destruct data as [k b], Hd as [[Hk|[Hk|Hk]] [Hb|[Hb|[Hb|Hb]]]]; cbn in Hk, Hb; subst; reflexivity. }
-  destruct remembered as [k|].
-  - specialize (Hr k eq_refl).
-    destruct e; try congruence; cbn [written_dtype]; try exact Hself;
-      unfold forgets, model_dtype_rule; cbn [dr_disk dr_data dr_unsafe_only dr_unless_packed];
-      destruct (safe_cast data k) eqn:E;
-      destruct data as [kd bd], k as [kk bk], Hd as [[Hk|[Hk|Hk]] _], Hr as [[Hq|[Hq|Hq]] _];
-      cbn in Hk, Hq; subst; cbn; rewrite ?E; cbn; try exact Hself; try exact E.
-  - destruct e; try congruence; exact Hself.
+  pose proof written_ok_model as H. unfold written_ok in H.
+  rewrite forallb_forall in H. specialize (H e He).
+  rewrite forallb_forall in H. specialize (H remembered Hr).
+  rewrite forallb_forall in H. exact (H data Hd).
 Qed.
 
-(* in particular float data is never written with an integer dtype (defect D30) *)
-Theorem C14_float_not_written_as_integer : forall e remembered b,
-  e <> Ezarr -> (b = 32 \/ b = 64) -> (forall k, remembered = Some k -> numeric k) ->
-  fst (written_dtype gen_dtype_rule e remembered (KFloat, b) false) = KFloat.
+(* in particular float data is never written with an integer dtype (defect D30), complex data never with a real one *)
+Theorem C14_float_not_written_as_integer : forall e remembered data,
+  In e [Eh5netcdf; Enetcdf4; Ejoblib] -> In data all_numeric -> In remembered (None :: map Some all_numeric) ->
+  (fst data = KFloat -> fst (written_dtype gen_dtype_rule e remembered data false) = KFloat
+                        \/ fst (written_dtype gen_dtype_rule e remembered data false) = KComplex)
+  /\ (fst data = KComplex -> fst (written_dtype gen_dtype_rule e remembered data false) = KComplex).
 Proof.
-  intros e remembered b He Hb Hr.
-  assert (Hn : numeric (KFloat, b)).
-  { split; [right; right; reflexivity|cbn; destruct Hb as [->| ->]; auto]. }
-  pose proof (C14_written_dtype_holds_the_data e remembered (KFloat, b) He Hn Hr) as H.
-  destruct (written_dtype gen_dtype_rule e remembered (KFloat, b) false) as [[] w]; cbn in H |- *;
-    try discriminate; reflexivity.
+  intros e remembered data He Hd Hr.
+  pose proof (C14_written_dtype_holds_the_data e remembered data He Hd Hr) as H.
+  destruct data as [kd bd]. destruct (written_dtype gen_dtype_rule e remembered (kd, bd) false) as [kw bw].
+  cbn [fst]. split; intros ->; destruct kw; cbn in H; try discriminate; auto.
 Qed.
 
 (* ... and a remembered dtype that CAN hold the data, or belongs to a packed variable, is kept *)
@@ -100,13 +101,16 @@ Proof.
     destruct H as [H| ->]; rewrite ?H; cbn; rewrite ?andb_false_r; reflexivity.
 Qed.
 
-(* the behaviour before the repairs: no rule at all (D30: float data written as int64), and the first repair's rule,
-   which looked at int -> float only (a coordinate grown past int32 still wrapped around) *)
+(* the behaviour before the repairs: no rule at all (D30: float data written as int64); the first repair's rule,
+   integer -> float only (D41: a coordinate grown past int32 wrapped around); the second one's, which did not look at
+   bool / complex (D44: imaginary parts dropped) *)
 Lemma C14_written_dtype_refuted_old :
-  written_dtype (mk_dtype_rule [] [] true true) Eh5netcdf (Some (KInt, 64)) (KFloat, 64) false = (KInt, 64)
+  written_ok (mk_dtype_rule [] [] true true) = false
   /\ written_dtype (mk_dtype_rule [KInt; KUInt] [KFloat] false true) Eh5netcdf (Some (KInt, 32)) (KInt, 64) false
-     = (KInt, 32).
-Proof. split; reflexivity. Qed.
+     = (KInt, 32)
+  /\ written_dtype (mk_dtype_rule [KInt; KUInt; KFloat] [KInt; KUInt; KFloat] true true) Eh5netcdf
+                   (Some (KFloat, 64)) (KComplex, 128) false = (KFloat, 64).
+Proof. repeat split; vm_compute; reflexivity. Qed.
 
 Theorem C14_engine_forwarded : gen_engine_forwarded_everywhere = true.
 Proof. exact bridge_engine_forwarded. Qed.
